@@ -6,6 +6,7 @@
 //! where both directions exist. An `Err` in either direction on the type's own output is a
 //! violation. Types whose `PartialEq` is coarser than their content (`TapTree`: root hash only)
 //! are additionally compared through the underlying builder / leaf lists.
+use crate::refimpl::Variant as _;
 use std::collections::BTreeMap;
 use std::fmt::{Debug, Display};
 use std::str::FromStr;
@@ -477,7 +478,7 @@ fn pset_full_eq(a: &Pset, b: &Pset) -> bool {
 // ------------------------------------------------------------------ sub-check: transactions
 
 fn txout_nontrivial(o: &TxOut) -> bool {
-    o.asset.is_confidential() || o.value.is_confidential() || !o.nonce.is_null() || !o.witness.is_empty()
+    o.asset.v_conf() || o.value.v_conf() || !o.nonce.is_null() || !o.witness.is_empty()
 }
 fn txin_nontrivial(i: &TxIn) -> bool {
     i.is_pegin || i.has_issuance() || !i.witness.is_empty()
